@@ -1,6 +1,7 @@
 package props
 
 import (
+	"bufio"
 	"fmt"
 	"io"
 
@@ -295,6 +296,57 @@ func c18CheckUniform(c c18UniCase) engine.Result {
 	return res
 }
 
+// ---- long streams (sizes beyond the tree/uniform scenarios; buffered readers)
+
+var c18LongStream = func() []byte {
+	out := make([]byte, 120*188)
+	x := uint64(0xD1B54A32D192ED03)
+	for i := range out {
+		x ^= x << 13
+		x ^= x >> 7
+		x ^= x << 17
+		out[i] = byte(x >> 16)
+	}
+	return out
+}()
+
+type c18LongCase struct {
+	Adapter int  `json:"adapter"`
+	Packets int  `json:"packets"`
+	Tail    int  `json:"tail"`
+	Chunk   int  `json:"chunk"`
+	Bufio   int  `json:"bufio_size"` // 0: none
+	EOFData bool `json:"eof_with_data"`
+}
+
+func c18CheckLong(c c18LongCase) engine.Result {
+	var res engine.Result
+	data := c18LongStream[:c.Packets*188+c.Tail]
+	sr := ref.ScriptedReader{Data: data, Chunk: c.Chunk, EOFWithData: c.EOFData}
+	var spw ref.ScriptedPacketWriter
+	spw.Reset(-1)
+	w := c18Make(c.Adapter, &spw)
+	var rd io.Reader = &sr
+	if c.Bufio > 0 {
+		rd = bufio.NewReaderSize(&sr, c.Bufio)
+	}
+	var n int64
+	var err error
+	res.Evals++
+	if !engine.Guard(&res, "ReadFrom", func() { n, err = c18ReadFrom(w, rd) }) {
+		if c.Bufio > 0 && c.Bufio%188 != 0 {
+			sr.ShortReads++ // the buffered reader cuts packets at its buffer boundary
+		}
+		c18JudgeReadFrom(&res, data, &sr, &spw, n, err, func() string {
+			return fmt.Sprintf("%s.ReadFrom, stream of %d packets + %d bytes, reader hands out %d bytes per call through bufio size %d, EOF with data %v",
+				c18Adapters[c.Adapter], c.Packets, c.Tail, c.Chunk, c.Bufio, c.EOFData)
+		})
+	}
+	res.Nontrivial = 1
+	res.Outcome(c.Packets, c.Tail, c.Chunk, c.Bufio)
+	return res
+}
+
 // ---- ReadFrom under the scripted environment (choice tree)
 
 func c18TreeBody(adapter, packets, tail int) func(ch *engine.Chooser) engine.Result {
@@ -364,6 +416,28 @@ func init() {
 				}
 			},
 			Check: c18CheckUniform, Batch: 1,
+		},
+		&engine.Enum[c18LongCase]{
+			Name: "readfrom-long-streams",
+			Rule: "streams of {21,22,23,44,100} packets (thorough: every count 1..110) + tail {0,1,100} bytes, reader chunk sizes {1,100,187,188,189,376,4000,4096,100000} directly and through bufio readers of size {16,4096,4100}, EOF separate or attached: beyond the sizes of the exhaustive scenarios (default buffer sizes are not multiples of 188, so short reads appear only after ~22 packets)",
+			Gen: func(r *engine.Run, emit func(c18LongCase)) {
+				counts := []int{21, 22, 23, 44, 100}
+				if r.Thorough() {
+					counts = seq(1, 110)
+				}
+				for _, p := range counts {
+					for _, t := range []int{0, 1, 100} {
+						for _, ch := range []int{1, 100, 187, 188, 189, 376, 4000, 4096, 100000} {
+							for _, b := range []int{0, 16, 4096, 4100} {
+								for _, e := range []bool{false, true} {
+									emit(c18LongCase{(p + t + ch) % 4, p, t, ch, b, e})
+								}
+							}
+						}
+					}
+				}
+			},
+			Check: c18CheckLong, Batch: 8,
 		},
 	}
 	// one choice tree per stream shape (the shape is not an environment answer and must not use up
